@@ -25,6 +25,9 @@ INPUTS = {"M_indef": 5, "M_vars": 6, "M_action": "core.noop", "M_input": 7, "M_d
           "M_rdelay": 2, "M_when": True, "M_pub": 8, "M_items": [1, 2], "M_conc": 1, "M_out": 9}
 
 
+OWN_THOROUGH = True
+
+
 def definition(lang):
     e = (lambda b: "<% " + b + " %>") if lang == "yaql" else (lambda b: "{{ " + b + " }}")
     return {
@@ -128,14 +131,14 @@ class C11Contained(Monitor):
         self.after_call(env, "deserialize")
 
 
-def faults(ch, ctx, lang, mark, steps=5, twin=False):
+def faults(ch, ctx, lang, mark, steps=5, twin=False, control=None, order=False):
     wf = get_def(lang)
     FAULT.update(mark=mark, kind=0, nth=0, seen=0, fired=False, lang=lang)
     if mark is not None:
         if mark in INT_POS or mark == "M_items":
             FAULT["kind"] = 1 if ch.flag("wrong_type") else 0
         FAULT["nth"] = 1 if ch.flag("second_evaluation") else 0
-    env = Env(ch, wf, "C11", monitors=[C11Contained()], policy=Policy(steps=steps, order=False, crash="bits", crash_max=0, crash_init=True))
+    env = Env(ch, wf, "C11", monitors=[C11Contained()], policy=Policy(steps=steps, order=order, control=control, crash="bits", crash_max=0, crash_init=True))
     env.counters = ctx["counters"]
     expr_base.evaluate = faulty
     try:
@@ -182,7 +185,10 @@ def obligations(tier):
     obs = []
     for lang in ("yaql", "jinja"):
         for m in MARKS:
-            o = ob("C11", "e2c.%s.%s" % (lang, m), "vt.harness.C11:faults", {"lang": lang, "mark": m, "steps": 5}, timeout=600)
+            params = {"lang": lang, "mark": m, "steps": 5}
+            if tier == "thorough":
+                params.update(steps=7, control="either", order=True)
+            o = ob("C11", "e2c.%s.%s" % (lang, m), "vt.harness.C11:faults", params, timeout=600 if tier == "quick" else 3600)
             o["antecedents"] = ["c11_fault_fired"]
             obs.append(o)
     obs.append(ob("C11", "model", "vt.harness.C11:fault_model", {}, timeout=60))
